@@ -127,14 +127,17 @@ void dsim_scenario() {
             else if (mode == 3) { CbAggConsumer<std::remove_reference_t<decltype(agg)>> c(agg, limit, o); cocls::future<void> fin; c.done = fin.get_promise(); c.pump().clear(); fin.wait(); }
             else consume_normal(agg, style, limit, o);
         };
+        // the aggregate owns its sources from the moment it exists: the vector they were handed over in may be gone (built in a helper
+        // that returns the aggregate) before the aggregate is asked for the first time
+        bool in_helper = dsim::flip();
         if (with_arg) {
-            std::vector<cocls::generator<long, long>> gens; for (int s = 0; s < nsrc; s++) gens.push_back(source_arg(s));
-            auto agg = cocls::generator_aggregator(std::move(gens));
-            drive(agg);
+            auto build = [&] { std::vector<cocls::generator<long, long>> gens; for (int s = 0; s < nsrc; s++) gens.push_back(source_arg(s)); return cocls::generator_aggregator(std::move(gens)); };
+            if (in_helper) { auto agg = build(); drive(agg); }
+            else { std::vector<cocls::generator<long, long>> gens; for (int s = 0; s < nsrc; s++) gens.push_back(source_arg(s)); auto agg = cocls::generator_aggregator(std::move(gens)); drive(agg); }
         } else {
-            std::vector<cocls::generator<long>> gens; for (int s = 0; s < nsrc; s++) gens.push_back(source(s));
-            auto agg = cocls::generator_aggregator(std::move(gens));
-            drive(agg);
+            auto build = [&] { std::vector<cocls::generator<long>> gens; for (int s = 0; s < nsrc; s++) gens.push_back(source(s)); return cocls::generator_aggregator(std::move(gens)); };
+            if (in_helper) { auto agg = build(); drive(agg); }
+            else { std::vector<cocls::generator<long>> gens; for (int s = 0; s < nsrc; s++) gens.push_back(source(s)); auto agg = cocls::generator_aggregator(std::move(gens)); drive(agg); }
         }
         // aggregate destroyed here: blocks until in-flight asynchronous sources have delivered
     }
